@@ -13,6 +13,7 @@ import GM.Props.C02Esc
 import GM.Props.C02LinkFix
 import GM.Props.C02Frag
 import GM.Props.C02Link
+import GM.Props.C02FragInteg
 
 namespace GM.Props.C02
 open GM GM.Spec.CM
@@ -170,5 +171,116 @@ theorem model_destination_agrees_with_reference_pointy : type_of% @GM.Props.C02L
 /-- (re-export of `GM.Props.C02LinkFix.model_destination_agrees_with_reference_bare`, repair ce3b6c4) … and the bracket-free destination (`destPlain` / `destOpened`),
     on every line whose only white-space / control characters are spaces and line feeds, is what `GM.Spec.CMLink.bare` returns -/
 theorem model_destination_agrees_with_reference_bare : type_of% @GM.Props.C02LinkFix.model_destination_agrees_with_reference_bare := @GM.Props.C02LinkFix.model_destination_agrees_with_reference_bare
+
+/-- (re-export of `GM.Props.C02Frag.fragment7_conforms`) **Conformance without the final line feed.** For EVERY stage-6 document `d` that ends with a block (`trail = 0`,
+    at least one block), written WITHOUT the line feed of its last line (`spellKE d` = `spellK d` minus its last
+    byte; the last line may be a paragraph line, an ATX heading, a thematic break or the closing fence of a fenced
+    code block, behind a blank line or directly behind the previous block): the model of goldmark's `Convert` returns
+    exactly the same prescribed HTML `expectedK d`. -/
+theorem fragment7_conforms : type_of% @GM.Props.C02Frag.fragment7_conforms := @GM.Props.C02Frag.fragment7_conforms
+
+/-- (re-export of `GM.Props.C02Frag.fragment7_conforms_spec`) **Stage-7 conformance stated on the spec model itself** (its axis "missing final newline"). -/
+theorem fragment7_conforms_spec : type_of% @GM.Props.C02Frag.fragment7_conforms_spec := @GM.Props.C02Frag.fragment7_conforms_spec
+
+/-- (re-export of `GM.Props.C02Frag.fragment8_conforms`) **Conformance with code spans.** For EVERY document of paragraphs (`RDoc`) whose lines are made of text atoms (any
+    licensed spelling of every character, as in stage 1–3) alternating with CODE SPANS — one backtick, a non-empty run of
+    ASCII letters and digits, one backtick — each line beginning and ending with text (`RFrag`, decidable), with any
+    number of blank lines between the paragraphs and at both ends: the model of goldmark's `Convert` returns exactly the
+    prescribed HTML (`<code>…</code>` in place of every span). The span may touch the text on both sides (`a`x`b`),
+    stand behind an escaped backtick or backslash, several spans per line, several lines per paragraph. -/
+theorem fragment8_conforms : type_of% @GM.Props.C02Frag.fragment8_conforms := @GM.Props.C02Frag.fragment8_conforms
+
+/-- (re-export of `GM.Props.C02Frag.fragment9_conforms`) **Conformance with hard line breaks.** For EVERY document of paragraphs (`BDoc`) whose lines are stage-1–3 text lines,
+    every line except the last of its paragraph optionally followed by a BACKSLASH (`BFrag`, decidable): the model of
+    goldmark's `Convert` returns exactly the prescribed HTML — `<br />` and a line feed behind a hard line. -/
+theorem fragment9_conforms : type_of% @GM.Props.C02Frag.fragment9_conforms := @GM.Props.C02Frag.fragment9_conforms
+
+/-- (re-export of `GM.Props.C02Frag.fragment11_conforms`) **Conformance with emphasis.** For EVERY document of paragraphs (`EDoc`) whose lines are made of text atoms (any
+    licensed spelling of every character) alternating with code spans, `*x*` and `**x**` (x a non-empty run of ASCII
+    letters and digits), each line beginning and ending with text (`EFrag`, decidable): the model of goldmark's `Convert`
+    returns exactly the prescribed HTML (`<em>x</em>`, `<strong>x</strong>`). NO condition on the characters next to
+    the `*` runs is needed (the content is alphanumeric, so the opening run is left-flanking and the closing run
+    right-flanking whatever stands outside — letters, spaces, punctuation in any spelling, an escaped `\*`): the tie
+    enumerates all 95 characters × 7 spellings on both sides. -/
+theorem fragment11_conforms : type_of% @GM.Props.C02Frag.fragment11_conforms := @GM.Props.C02Frag.fragment11_conforms
+
+/-- (re-export of `GM.Props.C02Frag.fragment12_conforms`) **Conformance on the stage-12 fragment.** For EVERY document `d` of paragraphs, ATX headings, thematic breaks,
+    fenced code blocks (as in stage 6) and INDENTED CODE BLOCKS (one or more lines of four spaces followed by printable
+    ASCII text that does not start with a space), where blocks follow each other with or without blank lines as
+    CommonMark allows — an indented code block needs a blank line behind a paragraph (4.4: it cannot interrupt a
+    paragraph), any block may directly follow an indented code block, and no indented code block follows an indented
+    code block (with only blank lines between them they would be ONE block): the model of goldmark's `Convert` on
+    `spellIc d` returns exactly the prescribed HTML `expectedI d`. In particular the blank lines behind an indented code
+    block — which goldmark first appends to the open block and removes again when it closes the block — never reach the
+    output. -/
+theorem fragment12_conforms : type_of% @GM.Props.C02Frag.fragment12_conforms := @GM.Props.C02Frag.fragment12_conforms
+
+/-- (re-export of `GM.Props.C02Frag.fragment13_conforms`) **Conformance of the union fragment.** For EVERY document `d : UDocS` — paragraphs, ATX headings, thematic breaks,
+    fenced code blocks and INDENTED CODE BLOCKS (stage 12: lines of printable ASCII behind four spaces; not directly behind
+    a paragraph, and never behind another indented code block, however many blank lines lie between them), abutting where
+    CommonMark allows (stage 6), where every paragraph line and every heading text is a RICH line (text in any licensed
+    spelling alternating with code spans, `*x*`, `**x**`) and a paragraph line that is not the last may end with a
+    backslash HARD BREAK (`UFrag`, decidable): the model of goldmark's `Convert` returns exactly the prescribed HTML.
+    This one statement contains stages 1–6, 8, 9, 11 and 12. -/
+theorem fragment13_conforms : type_of% @GM.Props.C02Frag.fragment13_conforms := @GM.Props.C02Frag.fragment13_conforms
+
+/-- (re-export of `GM.Props.C02Frag.fragment13_conforms_spec`) **The union stated on the spec model itself.** -/
+theorem fragment13_conforms_spec : type_of% @GM.Props.C02Frag.fragment13_conforms_spec := @GM.Props.C02Frag.fragment13_conforms_spec
+
+/-- (re-export of `GM.Props.C02Frag.fragment16_conforms`) **Conformance with inline links.** For EVERY document of paragraphs (`LDoc`) whose lines are text atoms (any licensed
+    spelling of every character) alternating with INLINE LINKS `[t](d)` — `t` a non-empty run of ASCII letters and digits,
+    `d` a non-empty run of letters, digits and `/`, no title —, each line beginning and ending with text (`LFrag`,
+    decidable): the model of goldmark's `Convert` returns exactly the prescribed HTML (`<a href="d">t</a>`). No condition
+    on the characters next to the brackets is needed (an escaped `\[`, `\]`, `\!` included). -/
+theorem fragment16_conforms : type_of% @GM.Props.C02Frag.fragment16_conforms := @GM.Props.C02Frag.fragment16_conforms
+
+/-- (re-export of `GM.Props.C02Frag.fragment17_conforms`) **Conformance with images.** As stage 16 with IMAGES `![t](d)` in place of the links (`ImgDoc`, `ImgFrag`): the model of
+    goldmark's `Convert` returns `<img src="d" alt="t" />` for every image. -/
+theorem fragment17_conforms : type_of% @GM.Props.C02Frag.fragment17_conforms := @GM.Props.C02Frag.fragment17_conforms
+
+/-- (re-export of `GM.Props.C02Frag.fragment18_conforms`) **Conformance with URI autolinks.** For EVERY document of paragraphs (`ADoc`) whose lines are text atoms alternating
+    with AUTOLINKS `<s:r>` — `s` a scheme of 2 to 32 ASCII letters, `r` a non-empty run of letters, digits, `/` and `.` —,
+    each line beginning and ending with text (`AFrag`): the model of goldmark's `Convert` returns
+    `<a href="s:r">s:r</a>` for every autolink. (A scheme of 33 letters is OUTSIDE the fragment: there goldmark deviates
+    from CommonMark 6.5 — see notes/status_cmfrag.md, findings.) -/
+theorem fragment18_conforms : type_of% @GM.Props.C02Frag.fragment18_conforms := @GM.Props.C02Frag.fragment18_conforms
+
+/-- (re-export of `GM.Props.C02Frag.fragment19_conforms`) **Conformance with raw inline HTML.** For EVERY document of paragraphs (`H19Doc`) whose lines are text atoms
+    alternating with OPEN TAGS `<n>` and CLOSING TAGS `</n>` (`n` = an ASCII letter followed by letters and digits, no
+    attributes), each line beginning and ending with text (`H19Frag`): with `html.WithUnsafe()` the model of goldmark's
+    `Convert` passes every tag through verbatim. (The autolink parser, which shares the trigger `<`, declines; names of
+    block-level elements — `div`, `pre`, `script` — are harmless in inline position.) -/
+theorem fragment19_conforms : type_of% @GM.Props.C02Frag.fragment19_conforms := @GM.Props.C02Frag.fragment19_conforms
+
+/-- (re-export of `GM.Props.C02Frag.fragment20_conforms`) **Conformance with `_` emphasis.** For EVERY document of paragraphs (`UnDoc`) whose lines are text atoms alternating
+    with `_x_` and `__x__` (x a non-empty run of ASCII letters and digits) such that the SOURCE byte directly in front of
+    an opening run and the one directly behind a closing run is not a letter or digit (6.2, rules 2 / 4 / 6 / 8: with
+    alphanumeric neighbours `a_b_c` is literal text — the tie checks that too, on non-members) (`UnFrag`): the model of
+    goldmark's `Convert` returns `<em>x</em>` / `<strong>x</strong>`. -/
+theorem fragment20_conforms : type_of% @GM.Props.C02Frag.fragment20_conforms := @GM.Props.C02Frag.fragment20_conforms
+
+/-- (re-export of `GM.Props.C02Frag.fragment12_conforms_no_final_newline`) … and the same documents written WITHOUT the line feed of their last line (`trail = 0`, at least one block; the last
+    block may be an indented code block whose last line ends the source): the same HTML -/
+theorem fragment12_conforms_no_final_newline : type_of% @GM.Props.C02Frag.fragment12_conforms_no_final_newline := @GM.Props.C02Frag.fragment12_conforms_no_final_newline
+
+/-- (re-export of `GM.Props.C02Frag.fragment13_conforms_no_final_newline`) … written without the final line feed (contains stage 7); here the LAST block is not an indented code block
+    (`ulastNotIc`; that case is `fragment12_conforms_no_final_newline`) -/
+theorem fragment13_conforms_no_final_newline : type_of% @GM.Props.C02Frag.fragment13_conforms_no_final_newline := @GM.Props.C02Frag.fragment13_conforms_no_final_newline
+
+/-- (re-export of `GM.Props.C02FragInteg.block_phase_bracket_free_holds`) on a source without `[` the block phase of the default pipeline IS the transformer-free driver's run -/
+theorem block_phase_bracket_free_holds : type_of% @GM.Props.C02FragInteg.block_phase_bracket_free_holds := @GM.Props.C02FragInteg.block_phase_bracket_free_holds
+
+/-- (re-export of `GM.Props.C02FragInteg.fragment10_conforms`) **Conformance inside one block quote** (stage 10): for every stage-6 fragment document without `-`, `*`, `+`, digits, `[`, written with
+    `> ` in front of every line, the composed model answers the prescribed HTML of the quoted document — no hypothesis left. -/
+theorem fragment10_conforms : type_of% @GM.Props.C02FragInteg.fragment10_conforms := @GM.Props.C02FragInteg.fragment10_conforms
+
+/-- (re-export of `GM.Props.C02FragInteg.fragment10_conforms_no_final_newline`) the same without the line feed of the last line -/
+theorem fragment10_conforms_no_final_newline : type_of% @GM.Props.C02FragInteg.fragment10_conforms_no_final_newline := @GM.Props.C02FragInteg.fragment10_conforms_no_final_newline
+
+/-- (re-export of `GM.Props.C02FragInteg.fragment14_conforms`) **Conformance inside `k+1` nested block quotes**, every `k` (stage 14) -/
+theorem fragment14_conforms : type_of% @GM.Props.C02FragInteg.fragment14_conforms := @GM.Props.C02FragInteg.fragment14_conforms
+
+/-- (re-export of `GM.Props.C02FragInteg.fragment13_conforms_quoted`) **The union fragment inside `k+1` nested block quotes** (stage 13, quoted) -/
+theorem fragment13_conforms_quoted : type_of% @GM.Props.C02FragInteg.fragment13_conforms_quoted := @GM.Props.C02FragInteg.fragment13_conforms_quoted
 
 end GM.Props.C02
